@@ -51,7 +51,7 @@ ASSUMPTIONS = [
     "the general theorems c04_nat_all_exits / c04_tproxy_all_exits / c04_nft_all_exits (every plan body, every initial kernel state, every k, every cut) assume: "
     "chain names without blanks and built-in OUTPUT/PREROUTING present in every iptables table (kst_wf), ports printed without blanks, the initial state holds "
     "no object named for the session's own ports (erase c s0 = s0; anything else is allowed), tproxy bodies respect the restore order (tp_body_ordered), "
-    "nft body rules name a chain nft.py creates (nft_body_ok); nat with --user/--group and pf remain sweeps / statements only",
+    "nft body rules name a chain nft.py creates (nft_body_ok); nat with --user/--group (c04_all_exits_full) additionally excludes exactly the F41 command (a failing tear-down `-t mangle -D OUTPUT ... MARK`); pf (c04_pf_identity, fault-free exits only) assumes anchor names of the main ruleset and ports without newline, no anchor named for the session's ports in the start state, on Darwin the next two -E tokens not outstanding, and for the main ruleset itself FreeBSD or no `set skip on lo`",
     "log faults: the theorems c04_log_total / c04_log_faults_invisible / c04_log_faults_same_commands assume that every exception a write or flush of the "
     "helper's stdout/stderr raises is an OSError or a ValueError (any subclass) — what the except clauses of helpers.log name; sessionL models the log "
     "points of nat, nft and tproxy sessions (pf logs inside pfctl(): harness only)",
@@ -1203,6 +1203,20 @@ def oracle(ctx, kern, plan, info, real):
             ctx.violation("set-up + tear-down is not the identity on the packet-filter state (%s)" % plan.method, v)
         elif not ok:
             ctx.count("pf_identity_deviations")
+            # F43: OpenBSD/Darwin with `set skip on lo` in force: add_anchors loads a ruleset consisting of
+            # 'match on lo' / 'pass on lo' only over the main ruleset, and nothing ever restores it
+            a, b = pf_view(s0), pf_view(fin)
+            rest_equal = all(a[k] == b[k] for k in a if k not in ("main", "skip"))
+            w2, f2 = copy.deepcopy(want), copy.deepcopy(fin)
+            w2["pf"], f2["pf"] = {}, {}
+            if (plan.method in ("pf-openbsd", "pf-darwin") and s0["pf"]["skip"] and rest_equal and w2 == f2
+                    and (a["main"], a["skip"]) != (b["main"], b["skip"])):
+                ctx.known("F43", "pf on OpenBSD/Darwin with 'set skip on lo': the main ruleset is replaced by 'match/pass on lo' during set-up and never restored")
+                ctx.violation("pf: the main ruleset was replaced during set-up and is not restored (set skip on lo)",
+                              dict(rep, finding_id="F43", main_before=[hx(t) for t in a["main"]][:6], main_after=[hx(t) for t in b["main"]][:6]))
+            elif pf_identity(plan, s0, fin, rep, ctx):
+                ctx.violation("set-up + tear-down is not the identity on the packet-filter state (%s)" % plan.method,
+                              dict(rep, final=real["final"][:600]))
         return
     # ---- a tear-down command failed
     tr = real["trace"]
